@@ -137,6 +137,22 @@ def run(chk):
                 chk.add_report(f"{name}:{kind}:ns={ns}:nv={nv}", rep)
                 rep["by_sig"] = {s: v for s, v in rep["by_sig"].items() if s.split(":", 1)[1] not in base_sigs}
                 chk.classify("tracker", args, rep)
+    # free world (R2): the same random multi-scene history through a batch tracker and, scene by scene, through the simple
+    # tracker; TLC relates the two recordings up to an id bijection (Pairing.tla): same grouping, boxes, epochs, lengths
+    from checks import r2_common as r2
+    for i in range(2 if quick else 24):
+        bkind, skind = (("batchsort", "sort"), ("batchvisual", "visual"))[i % 2]
+        seed = chk.seed * 1000 + 600 + i
+        kw = dict(steps=160, shards=1 + i % 3, metric="iou" if i % 2 == 0 else "maha", max_idle=(2, 1, 3)[i % 3], objects=3, spread=90,
+                  scenes="0,7", crafted=(i % 2 == 0), extra=["--no-lifecycle", "1", "--skip-empty", "1", "--delay-us", "200"])
+        a = r2.record(chk, f"c06-batch-{i}", bkind, seed, **kw)
+        for sc in (0, 7, 99) if kw["crafted"] else (0, 7):
+            kw2 = dict(kw); kw2["extra"] = ["--no-lifecycle", "1", "--skip-empty", "1", "--only-scene", str(sc)]
+            b = r2.record(chk, f"c06-simple{sc}-{i}", skind, seed, **kw2)
+            ok, rej = r2.pairing(chk, f"c06-pair-{i}-{sc}", a, b, "renaming", scene=sc)
+            chk.cov["evaluations"] += 1
+            if not ok:
+                chk.violation("c06:batch-differs-from-simple", {"engine": "pairing", "a": str(a), "b": str(b), "rejected": rej[:2000]})
     # VisualSORT batches with own-area gates (shares are computed per scene inside the batch loop): the batch tracker
     # against the simple tracker on the same behaviours
     vkw = dict(depth=5, Sim=12, OwnUse=50, OwnCollect=50, Kind="batch", Scenes={1, 2}, Slots={1, 2}, Confs={900, 800}, Feats={1}, Quals={90}, MaxDets=2)
